@@ -38,6 +38,19 @@ structure GoBuffer where
   markerOpen : Bool := false
 deriving DecidableEq, Repr, Inhabited
 
+/-- The printer as the translated brackets of helpers.go see it: its buffer and its override (`noOverride`,
+`overrideSafe`, `overrideUnsafe` by their iota values). -/
+structure GoPP where
+  buf : GoBuffer := {}
+  override : Int := 0
+deriving DecidableEq, Repr, Inhabited
+
+/-- `restorer` without its pointer to the printer (the printer is threaded through). -/
+structure GoRestorer where
+  prevMode : Int
+  prevOverride : Int
+deriving DecidableEq, Repr, Inhabited
+
 /-- What an out-of-range slice expression evaluates to here (Go panics): a value no model
 function produces, so that an equality with the model has to show the bounds are respected. -/
 def goPanicBytes : List UInt8 := [0xDE, 0xAD, 0xBE, 0xEF, 0xDE, 0xAD]
